@@ -15,10 +15,10 @@ func init() {
 		Property: "C06",
 		Explanation: "Narrow structural necessary conditions of the multicast rate limiter in Advertiser.schedule (the real spacing of transmissions over arrival histories is a timing property and is NOT decided): " +
 			"R-C06-1 minDelayBetweenRAs == 3s and only NewAdvertiser writes the field, with that constant; R-C06-2 the delay handed to the scheduler for a multicast request is minDelayBetweenRAs when time.Since(lastMulticast) < minDelayBetweenRAs and 0 otherwise, and unicast requests neither read nor write lastMulticast; " +
-			"R-C06-3 lastMulticast is updated on every multicast iteration to the instant the RA is to be sent (now + chosen delay); R-C06-4 a solicitation from :: becomes an all-nodes request; R-C06-5 only Run (initial), sendWorker (scheduled) and shutdown (final) call send, and sendWorker transmits at most once per scheduling decision, to its own destination parameter; R-C06-4 is universal: every path on which the solicitation's source is :: returns the all-nodes address. R-C06-2 also (shared with C07): no function value made in schedule() captures by reference a variable that schedule assigns on every iteration (a pending task would read the destination dequeued last).",
+			"R-C06-3 lastMulticast is updated on every multicast iteration to the instant the RA is to be sent (now + chosen delay); R-C06-4 a solicitation from :: becomes an all-nodes request; R-C06-5 only Run (initial), sendWorker (scheduled) and shutdown (final) call send, and sendWorker transmits at most once per scheduling decision, to its own destination parameter; R-C06-4 is universal: every path on which the solicitation's source is :: returns the all-nodes address. R-C06-2 also (shared with C07): no function value made in schedule() captures by reference a variable that schedule assigns on every iteration (a pending task would read the destination dequeued last). R-C06-7 / R-C07-7 (decided on the scheduler library's own SSA): Schedule's notification of the monitor goroutine cannot be lost (known finding F26: it is a non-blocking send on an unbuffered channel).",
 		Assumptions: []string{
 			"Go type checker and go/ssa construction are correct",
-			"schedgroup.Group.Delay(d, f) runs f once about d after the call",
+			"schedgroup.Group.Delay(d, f) runs f once about d after the call — except for the lost wake-up recorded as known finding F26 (R-C06-7), the one part of this assumption decided on the library's own code",
 		},
 		NotCovered: []string{"the actual gap between transmissions (timing)", "the liveness clause: every trigger satisfied within 3s", "scheduler latency and goroutine interleavings"},
 		Run:        runC06,
@@ -26,6 +26,7 @@ func init() {
 }
 
 func runC06(c *Ctx) {
+	schedulerWakeupLatched(c, "R-C06-7") // a delayed multicast RA is sent when it is due (shared library rule; known finding F26)
 	taskOwnsItsVariables(c, "R-C06-2") // a multicast task must still be a multicast task when it fires (shared rule)
 	// a solicitation from :: is only recognised (and answered by a rate-limited multicast RA) when the listener
 	// hands the source over without its zone: netip.Addr.IsUnspecified is false for "::%eth0"
